@@ -40,6 +40,9 @@ def getattr(I, st, v, name):
     M = _m()
     from .symex import FrozenList, FrozenDict, FrozenNd
 
+    if isinstance(v, SliceVal) and name in ("start", "stop", "step"):
+        yield st, {"start": v.lo, "stop": v.hi, "step": v.step}[name]
+        return
     if isinstance(v, HObj):
         if heap_is_obj(I, v.term) and not I.spec_mode:
             notnone = v.term != heap_none(I)
